@@ -223,6 +223,8 @@ def run(ctx):
             if g.qual not in (NS + "enumerate", NS + "reverse") or not g.file.startswith("/repo/") or not g.is_pattern or (g.file, g.line) in seen_ep:
                 continue
             seen_ep.add((g.file, g.line))
+            if len(g.params) != 1:
+                continue  # an iterator-pair overload `enumerate(first, last)` takes iterators, not a range, and cannot be selected for a one-argument call
             for p0 in g.params:
                 nep += 1
                 ctx.check(bool(p0.get("ref")), "R20.6", g, "range-parameter-is-a-reference:%s:%s" % (short(g.qual), (p0.get("type") or "")[:40]),
